@@ -21,6 +21,7 @@ import (
 	"os"
 	"reflect"
 	"sort"
+	"strings"
 	"testing"
 
 	"github.com/lianxiangcloud/linkchain/consensus"
@@ -43,11 +44,28 @@ func TestMain(m *testing.M) {
 // one-time cost is not attributed to the first measured decode.
 func warmUp() {
 	for _, e := range entries {
-		pv := e.newValue()
-		if b, err := e.encode(pv); err == nil {
-			e.decode(b)
-		}
+		e := e
+		guarded(func() (reflect.Value, error) { // a broken codec must fail tests, not TestMain
+			pv := e.newValue()
+			b, err := e.encode(pv)
+			if err == nil {
+				e.decode(b)
+			}
+			return pv, err
+		})
 	}
+}
+
+// wantSample: shard 0 of every test keeps two concrete cases, so that the evidence shows cases of
+// every part rather than eight from the first test.
+var sampled int
+
+func wantSample() bool {
+	if os.Getenv("VERIF_SHARD") != "0" || sampled >= 2 || !vstat.WantSample() {
+		return false
+	}
+	sampled++
+	return true
 }
 
 func drawEntry(t *rapid.T) *entry {
@@ -229,7 +247,7 @@ func runValueCase(t *rapid.T, e *entry) {
 	featureLabels("a:", feat)
 	if feat.nonTrivial() {
 		vstat.NonTrivial(fmt.Sprintf("a|%s|%x", e.name, enc))
-		if vstat.WantSample() && len(enc) < 400 {
+		if wantSample() && len(enc) < 400 {
 			vstat.Sample(map[string]interface{}{"part": "a", "type": e.name, "entrypoint": e.mode.String(), "encoding": fmt.Sprintf("%x", enc),
 				"interfaces": feat.ifaces, "nil_pointers": feat.nilPtrs, "nil_interfaces": feat.nilIfaces, "negative_ints": feat.negInts, "bigints_over_64bit": feat.bigOver64})
 		}
@@ -476,7 +494,7 @@ func runMutatedCase(t *rapid.T, e *entry) {
 	if passesFirstCheck(e, bm.out) {
 		vstat.Label("b:passes_first_check")
 		vstat.NonTrivial(fmt.Sprintf("b|%s|%x", e.name, bm.out))
-		if vstat.WantSample() && len(bm.out) < 200 {
+		if wantSample() && len(bm.out) < 200 {
 			vstat.Sample(map[string]interface{}{"part": "b", "type": e.name, "entrypoint": e.mode.String(), "mutation": bm.name, "input": fmt.Sprintf("%x", bm.out), "error": fmt.Sprint(res.err)})
 		}
 	}
@@ -641,33 +659,25 @@ func runReaderCase(t *rapid.T) {
 		limit = int64(maxPacketMsgSize)
 	}
 	// the reader production uses: the proposal's parts (PartSetReader, not a ByteReader, so the stream
-	// adds a bufio layer), resp. the connection's bufio.Reader
-	mkReader := func() interface {
-		Read([]byte) (int, error)
-	} {
-		if !blockCase {
-			return bufio.NewReaderSize(bytes.NewReader(in), 1024)
-		}
+	// adds a bufio layer), resp. the connection's bufio.Reader.  A fresh reader per call, so that the
+	// decode can be measured again.
+	var parts []*types.Part
+	if blockCase {
 		ps := rapid.SampledFrom([]int{7, 64, 1024, 32 * 1024}).Draw(t, "partsize")
-		var parts []*types.Part
 		for i := 0; i < len(in) || i == 0; i += ps {
 			parts = append(parts, &types.Part{Index: i / ps, Bytes: in[i:minInt(len(in), i+ps)]})
 		}
-		return types.NewPartSetReader(parts)
 	}
-	rd := mkReader()
 	var n int64
-	var blk *types.Block
-	var pkt conn.Packet
 	decode := func() (reflect.Value, error) {
 		var err error
 		if blockCase {
-			blk = nil
-			n, err = ser.DecodeReader(rd, &blk, limit) // consensus/state.go addProposalBlockPart
+			var blk *types.Block
+			n, err = ser.DecodeReader(types.NewPartSetReader(parts), &blk, limit) // consensus/state.go addProposalBlockPart
 			return reflect.ValueOf(blk), err
 		}
-		pkt = nil
-		n, err = ser.DecodeReaderWithType(rd, &pkt, limit) // libs/p2p/conn/connection.go recvRoutine
+		var pkt conn.Packet
+		n, err = ser.DecodeReaderWithType(bufio.NewReaderSize(bytes.NewReader(in), 1024), &pkt, limit) // libs/p2p/conn/connection.go recvRoutine
 		return reflect.ValueOf(&pkt).Elem(), err
 	}
 	res := measured(decode)
@@ -679,13 +689,19 @@ func runReaderCase(t *rapid.T) {
 	}
 	if res.pan != nil {
 		key := "decode-panic"
-		if fmt.Sprint(res.pan) != "" && bytes.Contains([]byte(fmt.Sprint(res.pan)), []byte("is not assignable to type")) {
+		if strings.Contains(fmt.Sprint(res.pan), "is not assignable to type") {
 			key = kForeignPrefix
 		}
 		vstat.Violation(t, P, key, "DecodeReader(%s, limit %d) of %s panicked: %v", e.name, limit, short(in), res.pan)
 		return
 	}
-	if bound := allocBound(len(in), uint64(limit)); res.alloc > bound {
+	bound := allocBound(len(in), uint64(limit))
+	for i := 0; i < 2 && res.alloc > bound; i++ { // filters a concurrent vstat flush, as in checkSafety
+		if r2 := measured(decode); r2.pan == nil && r2.alloc < res.alloc {
+			res.alloc = r2.alloc
+		}
+	}
+	if res.alloc > bound {
 		vstat.Violation(t, P, explainAlloc(e, res, res.alloc), "DecodeReader(%s, limit %d) of %d bytes allocated %d bytes (bound %d incl. the limit): %s", e.name, limit, len(in), res.alloc, bound, short(in))
 		return
 	}
@@ -776,10 +792,23 @@ func TestRegistryMatchesCodec(t *testing.T) {
 // fuzzEntry: the consensus reactor's decoder goes through consensus.VerifDecodeMsg (= decodeMsg).
 var consFuzzEntry = &entry{name: "cons/decodeMsg", mode: modeWithType, iface: tConsMsg}
 
+// fuzzing: true in the coordinator and the workers of a native fuzz run (not when the committed
+// corpus is replayed as an ordinary test).
+var fuzzing = func() bool {
+	for _, a := range os.Args[1:] {
+		if strings.HasPrefix(a, "-test.fuzz=") || strings.HasPrefix(a, "-test.fuzzworker") || a == "-test.fuzz" {
+			return true
+		}
+	}
+	return false
+}()
+
 func fuzzOne(t *testing.T, e *entry, in []byte, decode func() (reflect.Value, error)) {
 	vstat.Eval()
 	res := measured(decode)
-	if passesFirstCheck(e, in) {
+	// the driver counts native fuzz executions itself; recording millions of fingerprints would only
+	// make vstat's periodic flush heavy
+	if !fuzzing && passesFirstCheck(e, in) {
 		vstat.NonTrivial(fmt.Sprintf("f|%s|%x", e.name, in))
 	}
 	checkSafety(t, e, in, res, decode, 0, "fuzz")
